@@ -584,7 +584,8 @@ def default_warmup(h):
                  lambda: h.get_weights(), lambda: h.get_edges(metadata=True),
                  lambda: h.get_mapping(), lambda: h.max_size()]
     elif kind == "TemporalHypergraph":
-        calls = [lambda: h.get_times_for_edge, lambda: h.subhypergraph(), lambda: h.aggregate(1),
+        calls = [lambda: [h.get_times_for_edge(r[1]) for r in list(h.get_edges())[:2]],
+                 lambda: h.subhypergraph(), lambda: h.aggregate(1),
                  lambda: h.get_edges(metadata=True), lambda: h.get_weights(),
                  lambda: h.min_time(), lambda: h.max_time()]
     else:
